@@ -54,7 +54,7 @@ def run(tier, seed):
         n = model.nstates()
         if cls is mudslide.AugmentedFSSH and (n != 2 or diab): cls = mudslide.TrajectorySH
         kind = rng.choice(["state", "pure-coherent", "mixed"])
-        dt = rng.choice([2.0, 5.0, 10.0]) if integ == "exp" else rng.choice([0.4, 0.8, 1.5])
+        dt = rng.choice([2.0, 5.0, 10.0]) if integ == "exp" else rng.choice([0.4, 0.8, 1.5, 0.7, 0.9, 1.3, 2.4, round(rng.uniform(0.3, 3.0), 2)])     # non-dyadic steps: the sub-step clock must not lose the last sub-step to rounding
         nsteps = rng.randint(10, 40) if integ == "exp" else rng.randint(30, 60)
         kw = dict(dt=dt, max_steps=nsteps, electronic_integration=integ, seed_sequence=rng.randrange(2 ** 31))
         if diab:
